@@ -9,6 +9,7 @@
   `ObjE.enc`  : type byte and value bytes
   `ObjE.value`: the logical value (RedisSem.Val)
 -/
+import GunYu.Model.Rdb.Float
 import GunYu.Model.Rdb.Str
 import GunYu.Model.Rdb.Ziplist
 import GunYu.Model.Rdb.Listpack
@@ -128,10 +129,11 @@ def ObjE.ser : ObjE → Bytes
 
 /-! ## well-formedness: what makes a description denote a real Redis value -/
 
-/-- scores the model covers in the old (type 3) format: NaN/±Inf or `[-]digits`
-    below 2^53 (see `floatStrBits` in Exec.lean) -/
+/-- scores of the old (type 3) format: NaN/±Inf markers, or a text of at most 252 bytes that
+    `strconv.ParseFloat` accepts (`parseF64`, Model/Rdb/Float.lean: any decimal text with a
+    finite value, `inf`/`infinity`/`nan`) -/
 def Score1.wf : Score1 → Prop
-  | .ascii s => s.length < 253 ∧ ((decToNat? (splitSign s).2).any (· < 2 ^ 53)) = true
+  | .ascii s => s.length < 253 ∧ (parseF64 s).isSome = true
   | _ => True
 
 instance Score1.decWf (s : Score1) : Decidable s.wf := by
@@ -160,8 +162,8 @@ def ObjE.wf : ObjE → Prop
   | .zsetZiplist w zl => w.wf ∧ w.val = zl.blob ∧ zl.wf ∧ zl.entries.length % 2 = 0
   | .zsetListpack w es => w.wf ∧ w.val = lpBlob es ∧ lpWf es ∧ es.length % 2 = 0
   | .hashTable f items => f.fits items.length ∧ items.length < 2 ^ 32 ∧ ∀ p ∈ items, p.1.wf ∧ p.2.wf
-  | .hashZipmap w items => w.wf ∧ w.val = zipmapBlob items ∧ items.length < 254 ∧
-      ∀ i ∈ items, i.1.length < 253 ∧ i.2.1.length < 253 ∧ i.2.2 < 256
+  | .hashZipmap w items => w.wf ∧ w.val = zipmapBlob items ∧
+      ∀ i ∈ items, i.1.length < 2 ^ 32 ∧ i.2.1.length < 2 ^ 32 ∧ i.2.2 < 256
   | .hashZiplist w zl => w.wf ∧ w.val = zl.blob ∧ zl.wf ∧ zl.entries.length % 2 = 0
   | .hashListpack w es => w.wf ∧ w.val = lpBlob es ∧ lpWf es ∧ es.length % 2 = 0
   | .stream s => s.wf
